@@ -25,6 +25,7 @@
 #include "expr-writer.h"
 
 #include <cstring>
+#include <limits>
 
 using mp::Cast;
 
@@ -38,8 +39,15 @@ class ExprComparator : public mp::ExprVisitor<ExprComparator, bool> {
  public:
   explicit ExprComparator(Expr e) : expr_(e) {}
 
+  /// NaN constants are equal to each other so that Equal stays reflexive.
+  static bool SameValue(double a, double b) {
+    return a == b || (a != a && b != b);
+  }
+
   template <typename T>
-  bool VisitNumericConstant(T c) { return Cast<T>(expr_).value() == c.value(); }
+  bool VisitNumericConstant(T c) {
+    return SameValue(Cast<T>(expr_).value(), c.value());
+  }
 
   bool VisitVariable(Variable v) {
     return Cast<Variable>(expr_).index() == v.index();
@@ -99,10 +107,11 @@ bool ExprComparator::VisitPLTerm(PLTerm e) {
   if (num_breakpoints != e.num_breakpoints())
     return false;
   for (int i = 0; i < num_breakpoints; ++i) {
-    if (pl.slope(i) != e.slope(i) || pl.breakpoint(i) != e.breakpoint(i))
+    if (!SameValue(pl.slope(i), e.slope(i)) ||
+        !SameValue(pl.breakpoint(i), e.breakpoint(i)))
       return false;
   }
-  return pl.slope(num_breakpoints) == e.slope(num_breakpoints) &&
+  return SameValue(pl.slope(num_breakpoints), e.slope(num_breakpoints)) &&
          Equal(pl.arg(), e.arg());
 }
 
@@ -179,8 +188,15 @@ class ExprHasher : public mp::ExprVisitor<ExprHasher, size_t> {
     return HashCombine(Hash(e), value);
   }
 
+  /// All NaNs compare equal (see ExprComparator), so hash them alike.
+  static double Canonical(double value) {
+    return value != value ? std::numeric_limits<double>::quiet_NaN() : value;
+  }
+
  public:
-  size_t VisitNumericConstant(NumericConstant c) { return Hash(c, c.value()); }
+  size_t VisitNumericConstant(NumericConstant c) {
+    return Hash(c, Canonical(c.value()));
+  }
   size_t VisitVariable(Variable v) { return Hash(v, v.index()); }
   size_t VisitCommonExpr(CommonExpr e) { return Hash(e, e.index()); }
 
@@ -199,10 +215,10 @@ class ExprHasher : public mp::ExprVisitor<ExprHasher, size_t> {
     size_t hash = Hash(e);
     int num_breakpoints = e.num_breakpoints();
     for (int i = 0; i < num_breakpoints; ++i) {
-      hash = HashCombine(hash, e.slope(i));
-      hash = HashCombine(hash, e.breakpoint(i));
+      hash = HashCombine(hash, Canonical(e.slope(i)));
+      hash = HashCombine(hash, Canonical(e.breakpoint(i)));
     }
-    hash = HashCombine(hash, e.slope(num_breakpoints));
+    hash = HashCombine(hash, Canonical(e.slope(num_breakpoints)));
     return HashCombine(hash, e.arg());
   }
 
